@@ -2,4 +2,5 @@ SPECIFICATION Spec
 CONSTANTS MaxLen = 1
   Buggy = TRUE
   Wide = FALSE
+  Replay = FALSE
 INVARIANTS Isolation
